@@ -114,7 +114,7 @@ Step ==
             /\ owners' = owners \cup {t} /\ mpeak' = pk
             /\ UNCHANGED <<own, ofirst, ids, expFrees, lids, on, lch>>
             /\ Report(IF ReuseC(Cardinality(ids \cup PendIds(pend) \cup {ev.arena}), pk) THEN {} ELSE {"reuse"})
-      [] k = "get_fail" ->
+      [] k \in {"get_fail", "get_panic"} ->   \* no guard: Err, or the documented panic of a size hint that overflows
             /\ pend' = [pend EXCEPT ![t] = NoArena]
             /\ owners' = owners \ {t}
             /\ UNCHANGED <<own, ofirst, mpeak, ids, expFrees, lids, on, lch>> /\ Report({})
